@@ -54,16 +54,21 @@ def check_doc(args):
                 if (a is None) != (f is None) or (a is not None and a.position != f.position):
                     bad.append(('C03-attr', {'query': q, 'root_position': ent['root']}))
                     break
-                if ent['root'] == -1:
-                    names.append((q, want))
+            if ent['root'] == -1 and '{' not in q and '[' not in q and '\\' not in q and '$' not in q:
+                names.append((q, want))
         if bad:
             break
     if not bad and len(names) >= 2:
-        (q1, w1), (q2, w2) = names[0], names[-1]
-        if q1 != q2:
-            got = sorted(n.position for n in soup.find_all([q1, q2]))
-            if got != sorted(w1 + w2):
-                bad.append(('C03-list', {'query': [q1, q2], 'got': got, 'want': sorted(w1 + w2)}))
+        uniq = {}
+        for q, w in names:
+            uniq[q] = w
+        qs = sorted(uniq)
+        for sel in (qs, qs[:2], qs[-2:]):
+            want = sorted(p for q in sel for p in uniq[q])
+            got = sorted(n.position for n in soup.find_all(list(sel)))
+            if got != want:
+                bad.append(('C03-list', {'query': list(sel), 'got': got, 'want': want}))
+                break
     return bad, o['flat'] != rec['flat']
 
 
@@ -76,7 +81,9 @@ def run(chk):
                 '(results identified by source offset, compared as multisets). A case is a document.')
     sc = [('docs', {'Budget': 3 if quick else 4}),
           ('nested', {'Budget': 4 if quick else 5, 'TextPool': ['t', ' '], 'ComPool': [], 'MathKinds': ['$', '\\['], 'MEnvNames': ['equation'],
-                      'VerbNames': [], 'Leaves': [], 'CmdNames': ['a'], 'EnvNames': ['e'], 'Labels': [''], 'MaxSib': 2, 'MaxDepth': 4, 'MaxArgs': 2})]
+                      'VerbNames': [], 'Leaves': [], 'CmdNames': ['a', 'a*'], 'EnvNames': ['e'], 'Labels': [''], 'MaxSib': 2, 'MaxDepth': 4, 'MaxArgs': 2}),
+          ('envarg-deep', {'Budget': 6, 'TextPool': [], 'ComPool': [], 'MathKinds': [], 'MEnvNames': [], 'VerbNames': [], 'Leaves': [], 'CmdNames': ['a', 'b*'],
+                           'EnvNames': ['e'], 'ListNames': ['itemize'], 'Labels': ['', 'l'], 'MaxSib': 1, 'MaxDepth': 6, 'MaxArgs': 1})]
     for label, pools in sc:
         recs, p = D.generate(chk, label, pools, INV)
         c01.replay_docs(chk, recs, p['UserSkipG'], check_doc, 'search results must be exactly the matching nodes')
